@@ -641,18 +641,21 @@ Proof.
   induction fuel as [|f IH]; intros s; simpl; [reflexivity|].
   destruct (bstep q votes tgt dorder s) as [|s'|r]; try reflexivity. rewrite IH. reflexivity.
 Qed.
-Lemma run_core_spec d q votes tgt dorder n fuel :
-  snd (run_core d q votes tgt dorder n fuel) = evaluate_core d q votes tgt dorder n fuel /\
-  fst (run_core d q votes tgt dorder n fuel) =
+Lemma run_core_spec d q votes tgt dorder strict n fuel :
+  snd (run_core d q votes tgt dorder strict n fuel) = evaluate_core d q votes tgt dorder strict n fuel /\
+  fst (run_core d q votes tgt dorder strict n fuel) =
+    if refuses_empty votes strict then [] else
     match binit d q votes n with inr s => btrace q votes tgt dorder fuel s | inl _ => [] end.
 Proof.
-  unfold run_core, evaluate_core. destruct (binit d q votes n) as [e|s]; [split; reflexivity|].
+  unfold run_core, evaluate_core. destruct (refuses_empty votes strict); [split; reflexivity|].
+  destruct (binit d q votes n) as [e|s]; [split; reflexivity|].
   rewrite bloop_trace_spec. split; reflexivity.
 Qed.
-Lemma run_total_spec d q votes dorder n fuel :
-  snd (run_total d q votes n dorder fuel) = evaluate_total d q votes n dorder fuel.
+Lemma run_total_spec d q votes strict dorder n fuel :
+  snd (run_total d q votes strict n dorder fuel) = evaluate_total d q votes strict n dorder fuel.
 Proof.
-  unfold run_total, evaluate_total, evaluate_core. destruct (binit d q votes n) as [e|s]; [reflexivity|].
+  unfold run_total, evaluate_total, evaluate_core. destruct (refuses_empty votes strict); [reflexivity|].
+  destruct (binit d q votes n) as [e|s]; [reflexivity|].
   destruct (evaluate d (district_totals votes) n [] []) as [tgt [t|]|]; try reflexivity.
   rewrite bloop_trace_spec. reflexivity.
 Qed.
